@@ -36,6 +36,10 @@ CHECKS = {
     text="Real Lite*Store classes on the real sqlite3 library, one temporary database per path. The solver enumerates per table every sequence of <=2 (thorough 3) API operations over small operand pools (store A / store B = replace / delete / setAsSent ...) and every execute/commit boundary of the last operation as crash point (connection abandoned without commit), then a fresh store reopens the file: every record must hold its previous or its new value, never be missing, and the own identity/registration id is unchanged. A durability harness pushes real python-axolotl records through close/reopen and the public load API.",
     note="Trusted: sqlite's journal (an uncommitted transaction is rolled back on reopen), crash model = abandonment at statement/commit boundaries; record blobs are opaque tokens in the crash harness (sqlite only stores/compares them).",
     technique="solver-driven fault enumeration (operation sequence x crash boundary as z3 choice variables) on the real stores over real sqlite; concrete replay"),
+ "C19": dict(cat="model_checking", design="4/C19",
+    text="(a) DictKeyValTransform.transform/reverse executed symbolically on values of n<=3 (thorough 4) unconstrained Latin-1 characters under exactly the property's restriction: z3 proves the value survives the key=value text on every path. (b) solver-driven enumeration of ConfigManager.save -> real file -> load over 2 formats x 4 load paths (with/without extension, used profile, never-used profile) x field-subset families x 3 value families with real consonance key objects, compared field by field with byte-identical keys. (c) crash injection at every write boundary of save (open/truncate, write with a solver-chosen persisted prefix, close, rename): the profile must load as the previous or the new configuration.",
+    note="Trusted: json/base64 (real, concrete), file system below open/write/rename (rename atomic, write may persist any prefix), field-subset families instead of all 2^15 subsets (fields are filtered independently).",
+    technique="symbolic execution of the key=value codec (z3, symbolic characters) + solver-driven configuration and crash-point enumeration on real files; concrete replay"),
  "C15": dict(cat="model_checking", design="4/C15",
     text="Symbolic execution of the real mediacipher module with HKDF / AES-CBC / HMAC as uninterpreted terms (dec(enc(x))=x) and PKCS7 modelled exactly; the plaintext length L is a solver variable (0..80 quick, 0..4096 thorough; contents and key abstract). Obligations: decrypt(encrypt(p)) == p for every L and kind; the ciphertext term equals the independent reference layout (HKDF iv/key/mac key, always-padded CBC, 10-byte MAC over iv+ct); a flip at any symbolic position of ciphertext or tag, truncation, wrong key or wrong kind raises. Every model is replayed with the real cryptography library and compared byte for byte with ref/mediacipher_ref.py (own HKDF); the repository's fixture vector is checked against both.",
     note="Trusted: crypto models (ideal-primitive assumption for tamper detection: different MAC inputs give different MACs), PKCS7 model, z3; the real primitives are only exercised on the solver's witnesses and (thorough) every length 0..80.",
